@@ -757,9 +757,15 @@ def learn_native(what, contents):
             else:
                 s.store_metadata(args[0], root + "/d0", args[1])
                 expect = 1
-            n = len(tree()) - len(before)
+            newf = [f for f in tree() if f not in before]
+            n = len(newf)
             out = "created %d files" % n
             bad = n != expect
+            if api == "tag_object" and not bad:
+                # one file holding exactly the cid, one holding exactly the pid and a newline
+                datas = sorted(open(f, "rb").read() for f in newf)
+                if datas != sorted([args[1].encode("utf8"), (args[0] + "\n").encode("utf8")]):
+                    out, bad = "reference files hold %r" % (datas,), True
         except Exception as e:   # noqa
             out, bad = "%s: %s" % (type(e).__name__, str(e)[:160]), True
         return bad, "native run (unpatched code, real file system, empty store): %s%r -> %s" % (api, tuple(args), out)
